@@ -153,6 +153,8 @@ def c07(tier, seed):
     bootstrap_client_traces(run, tier, seed, "Trace_Bootstrap_C07.cfg")
     run.finish(
         require_witnesses=[
+            "client_run_with_called_contest",
+            "client_run_with_stopped_contest",
             "called_left_with_prediction_below_threshold",
             "called_right_upper_bound_overridden",
             "stop_list_pulled_lower_bound_below_zero",
@@ -163,9 +165,103 @@ def c07(tier, seed):
     )
 
 
-def bootstrap_client_traces(run, tier, seed, cfg):
-    """code -> spec on real bootstrap client runs (defined below once Trace_Bootstrap exists)."""
-    return 0
+def _job_client_record(arg):
+    seed, with_lists = arg
+    from harness import calls
+
+    try:
+        return ("ok", calls.client_record(seed, with_lists))
+    except Exception as e:  # noqa: BLE001
+        return ("exc", {"seed": seed, "exc": type(e).__name__, "msg": str(e)[:300], "tb": traceback.format_exc()[-1500:]})
+
+
+def _job_ranks(B):
+    from harness import calls
+
+    return calls.ranks_record(B)
+
+
+def _job_bounds(arg):
+    from harness import calls
+
+    seed, n = arg
+    rnd = random.Random(seed)
+    out = []
+    for _ in range(n):
+        B = rnd.choice([2, 3, 4, 5, 7, 10])
+        xs = [rnd.randint(-9, 9) for _ in range(B)]
+        levels = sorted(rnd.sample([100, 500, 700, 800, 900, 950, 990], 3))
+        try:
+            out.append(calls.bounds_record(rnd.randint(-8, 8), xs, levels, rnd))
+        except Exception as e:  # noqa: BLE001
+            out.append({"kind": "raised", "B": B, "levels": levels, "exc": f"{type(e).__name__}: {str(e)[:200]}"})
+    return out
+
+
+def _validate_bootstrap(run, traces, cfg):
+    from harness import tracecheck
+
+    def on_reject(tr, clause, inv):
+        facts = {"clause": clause, "kind": tr["kind"], "invariant": inv}
+        for k in ("B", "district", "lambda"):
+            if k in tr:
+                facts[k] = tr[k]
+        run.violation(clause, facts, {"trace": tr if tr["kind"] != "client" else {k: v for k, v in tr.items() if k != "units"}})
+
+    n = tracecheck.validate("Trace_Bootstrap", cfg, traces, on_reject, run=run, chunk=300)
+    run.cov["traces_validated_against_impl"] += n
+
+
+def bootstrap_client_traces(run, tier, seed, cfg, n_quick=24, n_thorough=240):
+    """code -> spec on real bootstrap client runs with call / stop lists (paired with the run without lists)."""
+    n = n_quick if tier == "quick" else n_thorough
+    jobs = [(seed * 7 + k, True) for k in range(n)]
+    traces = []
+    for status, val in common.pool().map(_job_client_record, jobs, chunksize=1):
+        if status == "ok":
+            traces.append(val)
+            run.witness("client_run")
+            if val["district"]:
+                run.witness("district_office_run")
+            if any(g["top"] and g["name"] in val["lhs"] + val["rhs"] for g in val["groups"]):
+                run.witness("client_run_with_called_contest")
+            if any(g["top"] and g["name"] in val["stop"] for g in val["groups"]):
+                run.witness("client_run_with_stopped_contest")
+            run.witness(f"B_{val['B']}")
+            if val.get("stress"):
+                run.witness("run_with_extrapolating_units")
+        else:
+            run.violation("run_raised", {"clause": "run_raised", "exc": val["exc"]}, val)
+    _validate_bootstrap(run, traces, cfg)
+    if traces:
+        run.sample({"client_run": {k: v for k, v in traces[0].items() if k != "units"} | {"groups": traces[0]["groups"][:3]}})
+    return traces
+
+
+def c06(tier, seed):
+    run = report.Run("C06", tier, seed)
+    run.assumptions += [
+        "ranks: alpha on the permille grid; where the exact rank expression is an integer the float evaluation may land on either side (candidate sets)",
+        "statistical adequacy of the bootstrap intervals is not claimed by the property and not addressed",
+        "client tables in millionths with exact signs; the straddle (0.001) dominates the rounding",
+    ]
+    common.mc(run, "MC_BootstrapIntervals", "MC_BootstrapIntervals_ranks.cfg" if tier == "quick" else "MC_BootstrapIntervals_ranks_thorough.cfg", timeout=1500)
+    common.mc(run, "MC_BootstrapIntervals", "MC_BootstrapIntervals_bounds.cfg", timeout=600)
+    Bs = list(range(2, 121)) if tier == "quick" else list(range(2, 601))
+    traces = common.pool().map(_job_ranks, Bs, chunksize=4)
+    run.witness("rank_records", len(traces))
+    nb = 40 if tier == "quick" else 400
+    for out in common.pool().map(_job_bounds, [(seed + k, 25) for k in range(nb)], chunksize=1):
+        for o in out:
+            if o["kind"] == "raised":
+                run.violation("interval_construction_raised", {"clause": "interval_construction_raised", "B": o["B"]}, o)
+            else:
+                traces.append(o)
+        run.witness("bounds_records", len(out))
+    _validate_bootstrap(run, traces, "Trace_Bootstrap_C06.cfg")
+    run.sample({"bounds_record": traces[-1]})
+    bootstrap_client_traces(run, tier, seed, "Trace_Bootstrap_C06.cfg")
+    run.finish(require_witnesses=["rank_records", "bounds_records", "client_run", "district_office_run", "run_with_extrapolating_units", "B_2", "B_40"])
 
 
 # ---------------------------------------------------------------------------------------------------------------
